@@ -752,7 +752,7 @@ func includeWildcard(child *fieldHandlingTree, parent *fieldHandlingTree) (*fiel
 	if err != nil {
 		return child, nil
 	}
-	if child == nil && len(parent.fields.dict()) == 1 {
+	if child == nil && len(parent.fields.dict()) == 1 && len(parent.fields.array()) == 0 {
 		// parent is already config with just wildcard
 		return parent, nil
 	}
